@@ -190,6 +190,17 @@ def canon_tokens(toks) -> tuple:
     return ("ok-tokens", tuple((t.type.name, t.string, t.start, t.end, t.line) for t in toks))
 
 
+PINNED_MTIME_NS = 1_700_000_000_000_000_000
+
+
+def normalise_outcome(o: tuple) -> tuple:
+    """Where exactly the interpreter's recursion limit is hit depends on how deep the *caller* already is (a
+    thread body, a monitoring callback, a forked golden child), so a RecursionError is compared as a class only."""
+    if o and o[0] == "exc" and o[1] == "RecursionError":
+        return ("exc", "RecursionError", "", "-")
+    return o
+
+
 def execute_plain(op: dict, scratch: str) -> tuple[tuple, object]:
     """Run one un-faulted op through the public API.  Returns (canonical outcome, raw result)."""
     from peg_parser.parser import XonshParser
@@ -199,15 +210,25 @@ def execute_plain(op: dict, scratch: str) -> tuple[tuple, object]:
     pyv = tuple(op["py_version"]) if op.get("py_version") else None
     verbose = bool(op.get("verbose"))
     if kind == "parse_string":
-        return kernel.outcome_of(
+        o, raw = kernel.outcome_of(
             XonshParser.parse_string, op["text"], mode=op.get("mode") or "exec", py_version=pyv, verbose=verbose
         )
+        return normalise_outcome(o), raw
     if kind == "parse_file":
-        path = pathlib.Path(scratch) / file_name_for(op["text"])
-        if not path.exists():
-            with open(path, "w", encoding="utf-8", newline="") as f:
-                f.write(op["text"])
-        return kernel.outcome_of(XonshParser.parse_file, path, py_version=pyv, verbose=verbose)
+        # Files live in a few per-client *slots* that are overwritten in place, the way an editor or a sync tool
+        # rewrites a script.  With `pin_mtime` the file system's clock does not advance between two writes (coarse
+        # timestamps, `cp -p`, `rsync -t`): same path, same size, same mtime, different content.
+        slot = op.get("slot")
+        name = file_name_for(op["text"]) if slot is None else f"slot_{slot}.xsh"
+        path = pathlib.Path(scratch) / name
+        with open(path, "wb") as f:
+            f.write(op["text"].encode("utf-8"))
+        if op.get("pin_mtime"):
+            os.utime(path, ns=(PINNED_MTIME_NS, PINNED_MTIME_NS))
+        o, raw = kernel.outcome_of(XonshParser.parse_file, path, py_version=pyv, verbose=verbose)
+        if o[0] == "syntax":
+            o = (*o[:3], "<file>", *o[4:])  # the file name is whatever slot the caller used
+        return normalise_outcome(o), raw
     if kind == "tokens":
         try:
             toks = list(generate_tokens(op["text"]))
@@ -581,6 +602,9 @@ class ScheduleSim:
             self._switch(k, nxt, fn, line)
 
     def _switch(self, k, nxt, fn, line):
+        # the only Python-level call comes first: if the client is at its recursion limit it fails here, before any
+        # scheduler state has changed, and the RecursionError reaches the client as if its own code had hit the limit
+        self.log.add(k, "switch", (nxt, fn, line, self.step + 0))
         self.segments.append([k, self.seg_steps])
         self.seg_steps = 0
         self.switches += 1
@@ -589,7 +613,6 @@ class ScheduleSim:
                 self.overlap_switches += 1
         self.last_fn[k] = fn
         self.fn_pairs.add((fn, self.last_fn[nxt]))
-        self.log.add(k, "switch", (nxt, fn, line, self.step))
         self.gates[nxt].release()
         self.gates[k].acquire()
 
